@@ -20,6 +20,12 @@ methods.  Two observers:
      are not, the state is inspected: a remainder parked in txbs that no service call touches any
      more can never be sent.
 
+  D  (dead peers): a destination can turn unreachable for good after its gram's first send(s)
+     accepted nothing or only a part (remainder parked in txbs): from then on every send to it
+     raises the errno, also during the progress phase.  The gram in flight may be dropped; every
+     gram queued behind it for a live destination must still be sent within the bound, and no
+     single service call may keep calling send() without end.
+
 Also a few runs over real sockets (UXD datagram peers with a small send buffer so the kernel really
 reports would-block; UDP loopback incl. an unreachable port), same model on what sendto accepted.
 """
@@ -45,7 +51,10 @@ RULE = ("a case = a queue of 1-8 grams with unique contents to 1-4 destinations 
         "0 / 1 / half / all-1 / all / k bytes, or an unreachable errno) x the service API used (Once, greedy, AllTx, "
         "serviceAll, serviceLocal). Exhaustive: every script of length <= 5 (quick) / <= 6 (thorough) over "
         "{0,1,half,all-1,all} on a 3-gram 2-destination queue with two APIs; every script of length <= 3 (quick) / <= 4 "
-        "(thorough) over those 5 outcomes + the 10 unreachable errnos; random longer scripts with late-queued grams. "
+        "(thorough) over those 5 outcomes + the 10 unreachable errnos; dead-peer cases: every sequence of length <= 2 "
+        "(quick) / <= 3 (thorough) of zero/partial acceptances of one gram followed by a PERMANENT unreachable errno for "
+        "its destination (each of the 10 errnos), with grams for live destinations queued behind, x 6 service APIs x 2 "
+        "queue positions; random longer scripts with late-queued grams and dead peers. "
         "Non-trivial = the script contains at least one partial or zero acceptance or errno; distinct = by queue shape, "
         "script and API.")
 ASSUMPTIONS = [
@@ -56,14 +65,16 @@ ASSUMPTIONS = [
 ]
 NSHARDS = {"quick": 8, "thorough": 16}
 TIMEOUT_S = {"quick": 240, "thorough": 1500}
-REQUIRE = {"hook_evaluations": 20000, "sends_partial": 5000, "sends_zero": 5000, "sends_unreachable": 1000,
+REQUIRE = {"unreachable_after_zero_or_partial": 1500, "dead_peer_cases_drained": 1000, "hook_evaluations": 20000, "sends_partial": 5000, "sends_zero": 5000, "sends_unreachable": 1000,
            "grams_sent_in_full": 20000, "grams_dropped_unreachable": 500, "progress_checks": 5000,
            "real_socket_runs": 4, "real_wouldblock_seen": 1}
 EXHAUSTIVE = {
     "quick": "all acceptance scripts of length <= 5 over {0,1,half,all-1,all} (3905) x 2 service APIs; all scripts of "
-             "length <= 3 over those + 10 unreachable errnos (3615)",
+             "length <= 3 over those + 10 unreachable errnos (3615); all zero/partial prefixes of length <= 2 followed "
+             "by a permanently unreachable destination x 10 errnos x 6 APIs x 2 queue positions (2400)",
     "thorough": "all acceptance scripts of length <= 6 over {0,1,half,all-1,all} (19530) x 2 service APIs; all scripts "
-                "of length <= 4 over those + 10 unreachable errnos (54240)",
+                "of length <= 4 over those + 10 unreachable errnos (54240); all zero/partial prefixes of length <= 3 "
+                "followed by a permanently unreachable destination x 10 errnos x 6 APIs x 2 queue positions (10080)",
 }
 
 A5 = [0, 1, "half", "all-1", "all"]
@@ -93,6 +104,20 @@ def cases(tier, seed, shard, nshards):
                 yield {"kind": "enum-unreach", "grams": q4, "script": list(script),
                        "api": APIS[i % 3], "late": []}
             i += 1
+    # dead peers: gram for dst9 gets a prefix of zero/partial acceptances, then dst9 is unreachable for good
+    P4 = [0, 1, "half", "all-1"]
+    for ln in range(1, (2 if quick else 3) + 1):
+        for prefix in itertools.product(P4, repeat=ln):
+            for en in ms.UNREACHABLE:
+                for api in APIS:
+                    for pos in (0, 1):
+                        if i % nshards == shard:
+                            grams = [[7, 0], [5, 1], [6, 0]]
+                            grams.insert(pos, [16, 9])
+                            # sends to live destinations accept everything; the prefix applies to dst9 only
+                            yield {"kind": "enum-dead", "grams": grams, "script": [], "api": api, "late": [],
+                                   "dead": [[9, list(prefix), en]]}
+                        i += 1
     # real sockets: a handful per run, spread over shards
     nreal = 6 if quick else 24
     for k in range(nreal):
@@ -123,8 +148,13 @@ def cases(tier, seed, shard, nshards):
         if rng.random() < 0.3 and n < 8:
             for _ in range(rng.randint(1, 8 - n)):
                 late.append([rng.randint(1, 12), rng.randint(1, 31), rng.randrange(ndst)])
-        yield {"kind": "rand-memo" if rng.random() < 0.1 else "rand", "grams": grams, "script": script,
-               "api": rng.choice(APIS), "late": late}
+        case = {"kind": "rand-memo" if rng.random() < 0.1 else "rand", "grams": grams, "script": script,
+                "api": rng.choice(APIS), "late": late}
+        if case["kind"] == "rand" and rng.random() < 0.3:
+            # one destination dies for good after a few zero/partial acceptances of whatever is sent to it
+            case["dead"] = [[rng.randrange(ndst), [rng.choice([0, 0, 1, "half", "all-1", rng.randint(1, 20)])
+                                                  for _ in range(rng.randint(0, 4))], rng.choice(ms.UNREACHABLE)]]
+        yield case
 
 
 # ---------------------------------------------------------------------------
@@ -251,24 +281,44 @@ class Model:
         return alts
 
 
+class SpinAbort(BaseException):
+    """Raised by the scripted transport when ONE service call keeps calling send() far beyond what the queue can
+    explain; BaseException so that no handler in hio swallows it."""
+
+
 class ScriptedMemoer(Memoer):
     """Real Memoer; only the transport stub send() is replaced by the scripted transport."""
 
-    def __init__(self, script, ctx, **kwa):
+    def __init__(self, script, ctx, dead=(), **kwa):
         super().__init__(**kwa)
         self._vf_model = Model()
         self._vf_script = list(script)
         self._vf_ctx = ctx
         self._vf_violation = None
         self._vf_sends = 0
+        self._vf_call_sends = 0
+        self._vf_spin = False
+        # destination -> [outcomes of its first sends, errno raised for ever after]
+        self._vf_dead = {f"dst{d}": [list(prefix), en] for d, prefix, en in dead}
 
     def send(self, gram, dst, *, echoic=False):
         self._vf_sends += 1
+        self._vf_call_sends += 1
+        if self._vf_call_sends > 4 * len(self._vf_model.G) + 20:
+            self._vf_spin = True
+            raise SpinAbort()
         data = bytes(gram)
-        act = self._vf_script.pop(0) if self._vf_script else "all"
+        if dst in self._vf_dead:
+            prefix, en = self._vf_dead[dst]
+            act = prefix.pop(0) if prefix else en
+        else:
+            act = self._vf_script.pop(0) if self._vf_script else "all"
         ctx = self._vf_ctx
         if isinstance(act, str) and act.startswith("E"):
             ctx.count("sends_unreachable")
+            loc = self._vf_model.locate(data, dst)
+            if loc is not None and any(not isinstance(o, str) for o in self._vf_model.hist.get(loc[0], [])):
+                ctx.count("unreachable_after_zero_or_partial")
             self._vf_observe(data, dst, act)
             raise OSError(getattr(errno, act), os.strerror(getattr(errno, act)))
         n = {"all": len(data), "half": len(data) // 2, "all-1": max(0, len(data) - 1)}.get(act, act)
@@ -295,7 +345,8 @@ def _wrap_service_once(orig):
         try:
             return orig(self, *pa, **kwa)
         finally:
-            if model is not None and getattr(self, "_vf_violation", None) is None:
+            if model is not None and getattr(self, "_vf_violation", None) is None and \
+                    not getattr(self, "_vf_spin", False):
                 self._vf_ctx.count("hook_evaluations")
                 gram, dst = self.txbs
                 actual = ([(bytes(gram), dst)] if dst is not None else []) + [(bytes(g), d) for g, d in self.txgs]
@@ -354,6 +405,7 @@ def gram_bytes(idx, n, small):
 
 
 def call_api(m, api):
+    m._vf_call_sends = 0
     if api == "once":
         m.serviceTxGramsOnce()
     elif api == "greedy":
@@ -381,6 +433,28 @@ def finish(case, ctx, m, trace):
     return True
 
 
+STARVED_KEY = "starved:unreachable-remainder-kept-in-txbs-blocks-queue"
+
+
+def _starved(m):
+    """State inspection: txbs still holds (part of) a gram for whose destination the transport has reported
+    unreachable, and that is what the model is waiting behind."""
+    model = m._vf_model
+    gram, dst = m.txbs
+    return dst is not None and model.i < len(model.G) and model.i in model.unreach and \
+        dst == model.D[model.i] and bytes(gram) and model.G[model.i].endswith(bytes(gram))
+
+
+def _starved_msg(m, when):
+    model = m._vf_model
+    gram, dst = m.txbs
+    behind = [(len(g), d) for g, d in m.txgs]
+    return (f"{when}: {len(gram)} bytes of gram {model.i} stay in txbs for {dst!r} although every retry raises an "
+            f"unreachable errno (send outcomes {model.hist.get(model.i)}); it is neither dropped nor does the queue move "
+            f"on: {len(behind)} gram(s) behind it {behind[:4]} are never offered to the transport; transport log "
+            f"{model.log[-6:]}")
+
+
 def progress_phase(case, ctx, m, trace):
     model = m._vf_model
     api = case["api"]
@@ -405,6 +479,10 @@ def progress_phase(case, ctx, m, trace):
     if done and not m.txgs and m.txbs[1] is None:
         return True
     gram, dst = m.txbs
+    if _starved(m):
+        ctx.violation(STARVED_KEY, _starved_msg(m, f"{bound} calls of {api} after the live destinations accept everything"),
+                      trace=trace)
+        return False
     if not m.txgs and dst is not None and last_sends == 0:
         ctx.violation("stuck:remainder-in-txbs-not-serviced-when-txgs-empty",
                       f"after the transport accepts everything, {bound} calls of {api} left {len(gram)} bytes of gram "
@@ -424,7 +502,8 @@ def run_case(case, ctx):
     ms.reset_mids()
     small = sum(n for n, _ in case["grams"]) + sum(n for _, n, _ in case["late"]) <= 248 and \
         len(case["grams"]) + len(case["late"]) <= 8
-    m = ScriptedMemoer(case["script"], ctx, size=64 if case["kind"] == "rand-memo" else None)
+    m = ScriptedMemoer(case["script"], ctx, dead=case.get("dead", ()),
+                       size=64 if case["kind"] == "rand-memo" else None)
     m.reopen()
     model = m._vf_model
     trace = []
@@ -470,6 +549,15 @@ def run_case(case, ctx):
             return
     except Violation:
         raise AssertionError("harness: model violation escaped")
+    except SpinAbort:
+        if _starved(m):
+            ctx.violation(STARVED_KEY, _starved_msg(m, f"one call of {case['api']} made {m._vf_call_sends} send calls "
+                                                       f"and was aborted by the harness"), trace=trace)
+        else:
+            ctx.violation("spin:service-call-keeps-sending",
+                          f"one call of {case['api']} made {m._vf_call_sends} send calls for a queue of "
+                          f"{len(model.G)} grams; transport log {model.log[-8:]}", trace=trace)
+        return
     except OSError as ex:
         ctx.violation(ms.escape_key(ex, "tx-escape"),
                       f"service method raised {ex!r} although only would-block and unreachable errnos were injected",
@@ -481,9 +569,11 @@ def run_case(case, ctx):
     ctx.count("grams_dropped_unreachable", len(model.dropped))
     if len(model.full) + len(model.dropped) != len(model.G):
         raise AssertionError("harness: ledger does not add up")
-    sc = case["script"]
+    if case.get("dead"):
+        ctx.count("dead_peer_cases_drained")
+    sc = case["script"] + [a for _d, prefix, en in case.get("dead", ()) for a in prefix + [en]]
     if any(a != "all" for a in sc):
-        ctx.nontrivial([case["grams"], sc, case["api"], case["late"]])
+        ctx.nontrivial([case["grams"], sc, case["api"], case["late"], case.get("dead")])
     ctx.seen("script_shapes", [("E" if isinstance(a, str) and a.startswith("E") else a) for a in sc][:6])
     if case["kind"] == "rand" and model.dropped and len(sc) < 12:
         ctx.sample({"case": case, "sent_in_full": model.full, "dropped(gram,offset)": model.dropped,
